@@ -1,7 +1,10 @@
 (* Dependencies first (C05 c05_deps_first): when a component c has been initialised and holds a
    component d, then either every lifecycle event of d is older than every lifecycle event of c
    (d completed its initialisation before c's began), or d transitively REQUESTED c — d was still in
-   creation, waiting for c, when c was initialised: d depends back on c. *)
+   creation, waiting for c, when c was initialised: d depends back on c.
+
+   Created only if needed (C05 c05_lazy_only_if_needed): every component with a cache entry is a root (not
+   LazyInit: Refresh or PrepareComponents asks for it) or is reachable through requests from a created root. *)
 From Coq Require Import List Arith Bool Lia.
 From IocVerif Require Import Model.Registry Model.Resolve Model.Factory Model.App
   Proofs.FactoryBasics Proofs.FactoryLog Proofs.FactoryInvariant Proofs.FactoryLifecycle Proofs.ResolveProofs
@@ -81,8 +84,37 @@ Section Deps.
     forall c k v, alookup c (L1 (reg st)) <> None -> In v (field_of st c k) -> owner v <> c ->
       (alookup (owner v) (L1 (reg st)) <> None /\ older (owner v) c (log st)) \/ dep (owner v) c.
 
+  (* created only if needed: a root is a component the container itself asks for (not LazyInit) *)
+  Definition root (n : name) : Prop := is_lazy pop n = false.
+  Definition needed (r : rstate) (n : name) : Prop :=
+    root n \/ exists a, root a /\ cached r a = true /\ dep a n.
+  Definition ND (st : fstate) : Prop := forall n, cached (reg st) n = true -> needed (reg st) n.
+
+  Lemma needed_mono r r' n : mono r r' -> needed r n -> needed r' n.
+  Proof. intros Hm [Hr|[a [Ha [Hc Hd]]]]; [left; exact Hr|right; exists a; split; [exact Ha|split; [apply Hm; exact Hc|exact Hd]]]. Qed.
+
+  Lemma needed_req r h n : cached r h = true -> needed r h -> req h n -> needed r n.
+  Proof.
+    intros Hc [Hr|[a [Ha [Hca Hd]]]] Hq; right.
+    - exists h. split; [exact Hr|]. split; [exact Hc|apply dep1; exact Hq].
+    - exists a. split; [exact Ha|]. split; [exact Hca|eapply dep_snoc; eauto].
+  Qed.
+
+  Lemma ND_step st st' : mono (reg st) (reg st') ->
+    (forall m, cached (reg st') m = true -> cached (reg st) m = true \/ needed (reg st') m) -> ND st -> ND st'.
+  Proof.
+    intros Hm Hanti Hn m Hc. destruct (Hanti m Hc) as [Hc0|Hnd]; [|exact Hnd].
+    eapply needed_mono; [exact Hm|apply Hn; exact Hc0].
+  Qed.
+
+  Lemma ND_reg st st' : reg st' = reg st -> ND st -> ND st'.
+  Proof. intros Hr Hn m Hc. rewrite Hr in *. apply Hn; exact Hc. Qed.
+
+  Definition DN (st : fstate) : Prop := DF st /\ ND st.
+
+  (* a call is justified: the container asks for a root, or the component in creation requests d *)
   Definition callok (st : fstate) (d : name) : Prop :=
-    match creating (reg st) with [] => True | h :: _ => req h d end.
+    match creating (reg st) with [] => root d | h :: _ => req h d end.
 
   Hypothesis H3 : fix_c03 vt = true.
   Hypothesis H7 : fix_c07 vt = true.
@@ -95,10 +127,10 @@ Section Deps.
   Hypothesis Hlog : forall st d, geff2 s st (rec st d).
   Hypothesis HG : forall st d st' v, G vt s st -> full s st -> rec st d = Ok (st', v) -> G vt s st'.
   Hypothesis Hdf : forall st d st' v, G vt s st -> full s st -> life s st -> chain (creating (reg st)) -> callok st d ->
-    DF st -> rec st d = Ok (st', v) -> DF st'.
+    DN st -> rec st d = Ok (st', v) -> DN st'.
 
   (* the bundle carried along *)
-  Definition B (st : fstate) : Prop := G vt s st /\ life s st /\ chain (creating (reg st)) /\ DF st.
+  Definition B (st : fstate) : Prop := G vt s st /\ life s st /\ chain (creating (reg st)) /\ DN st.
 
   Lemma rec_B st d st' v : B st -> full s st -> callok st d -> rec st d = Ok (st', v) ->
     B st' /\ creating (reg st') = creating (reg st) /\ full s st'.
@@ -135,10 +167,10 @@ Section Deps.
     split.
     { eapply life_frame; [exact Hl|reflexivity| |reflexivity]. intros m v Hv k'. apply field_of_write_other.
       intros ->. rewrite HL1 in Hv. discriminate. }
-    split; [exact Hch|].
+    split; [exact Hch|]. split; [|eapply ND_reg; [|exact (proj2 Hd)]; reflexivity].
     intros c k' v Hp Hin Hne. change (reg (write_field st h k used)) with (reg st) in *.
     assert (Hch' : c <> h) by (intros ->; apply Hp; exact HL1).
-    rewrite (field_of_write_other st h k used c k' Hch') in Hin. apply (Hd c k' v Hp Hin Hne).
+    rewrite (field_of_write_other st h k used c k' Hch') in Hin. apply (proj1 Hd c k' v Hp Hin Hne).
   Qed.
 
   Lemma inject_points_B h cr : forall ps k pl st st',
@@ -204,7 +236,7 @@ Section Deps.
 
   Lemma body_B : forall st n st' v,
     B st -> (full s st \/ (forall c, get_comp pop n = Some c -> c_points c = [])) -> callok st n ->
-    body vt s rec st n = Ok (st', v) -> DF st'.
+    body vt s rec st n = Ok (st', v) -> DN st'.
   Proof.
     intros st n st' v [Hg [Hl [Hch Hd]]] Hcase Hco H.
     unfold body, get_singleton in H.
@@ -215,10 +247,18 @@ Section Deps.
       destruct (early_chain s n (active st) st (VOrig n)) as [[st1 ev]|k st1]; [|discriminate].
       cbn [eff2] in He. inversion H; subst st' v. destruct He as [Hr Hf _ _ _ _ [l [Hlg Hq]]].
       assert (Hd1 : DF st1).
-      { eapply DF_log_early; [exact Hr|exact Hf| |exact Hd]. exists l. split; [exact Hlg|].
+      { eapply DF_log_early; [exact Hr|exact Hf| |exact (proj1 Hd)]. exists l. split; [exact Hlg|].
         eapply Forall_impl; [|exact Hq]. intros e [He _] m. destruct e; cbn in He; try contradiction. reflexivity. }
-      intros c0 k0 v0 Hp Hin Hne. cbn [reg set_reg get_promote L1] in Hp.
-      destruct (Hd1 c0 k0 v0 Hp Hin Hne) as [[Hpd Ho]|Hdep]; [left; split; [exact Hpd|exact Ho]|right; exact Hdep].
+      split.
+      { intros c0 k0 v0 Hp Hin Hne. cbn [reg set_reg get_promote L1] in Hp.
+        destruct (Hd1 c0 k0 v0 Hp Hin Hne) as [[Hpd Ho]|Hdep]; [left; split; [exact Hpd|exact Ho]|right; exact Hdep]. }
+      destruct (get_lookup_need _ _ _ _ EL) as [_ [_ HL3]].
+      eapply (ND_step st); [| |exact (proj2 Hd)]; cbn [reg set_reg]; rewrite Hr.
+      { apply mono_get_promote. }
+      intros m Hm. left. destruct (Nat.eq_dec m n) as [->|Hmn].
+      { unfold cached. rewrite HL3. cbn. rewrite orb_true_r. reflexivity. }
+      unfold cached, get_promote in Hm. cbn [L1 L2 L3] in Hm.
+      rewrite (alookup_aset_neq n m ev _ Hmn), (alookup_aremove_neq n m _ Hmn) in Hm. exact Hm.
     - pose proof (FactoryBasics.get_lookup_miss_uncached _ _ EL) as Hunc.
       destruct (get_lookup_miss_true _ _ EL) as [HL1 [HL2 HL3]].
       unfold begin_create in H. rewrite HL1 in H.
@@ -251,7 +291,17 @@ Section Deps.
           + intros h' c' Hp Hc'. exact (Gw h' c' Hp Hc').
         - eapply life_frame; [exact Hl| | |]; reflexivity.
         - exact Hch0.
-        - intros c' k0 v0 Hp Hin Hne. exact (Hd c' k0 v0 Hp Hin Hne). }
+        - split; [intros c' k0 v0 Hp Hin Hne; exact (proj1 Hd c' k0 v0 Hp Hin Hne)|].
+          assert (Hmono0 : mono (reg st) (reg st0)) by (intros m Hm; unfold st0; cbn [reg set_reg]; apply mono_add_factory; exact Hm).
+          intros m Hm. change (reg (set_injs st0 n pl)) with (reg st0) in *.
+          destruct (Nat.eq_dec m n) as [->|Hmn].
+          + apply (needed_mono (reg st)); [exact Hmono0|]. unfold callok in Hco.
+            destruct (creating (reg st)) as [|b r] eqn:Ecr; [left; exact Hco|].
+            assert (Hcb : cached (reg st) b = true) by (apply (i_creating_cached st (g_inv vt s st Hg)); rewrite Ecr; left; reflexivity).
+            apply (needed_req (reg st) b n Hcb (proj2 Hd b Hcb) Hco).
+          + apply (needed_mono (reg st)); [exact Hmono0|]. apply (proj2 Hd).
+            unfold st0, cached, add_factory in Hm. cbn [reg set_reg L1 L2 L3] in Hm.
+            rewrite (alookup_aset_neq n m n _ Hmn) in Hm. exact Hm. }
       destruct (populate vt s rec st0 n c) as [st1|k1 st1] eqn:EP; [|destruct k1; discriminate].
       assert (Hpop : B st1 /\ creating (reg st1) = n :: creating (reg st) /\ sub n (log st1) = []).
       { unfold populate in EP. unfold cur_injs in EP. change (injs st0) with (injs st) in EP. rewrite Hinj0 in EP.
@@ -289,13 +339,20 @@ Section Deps.
       (* DF after the block of n has been logged *)
       assert (Hd2 : DF st2).
       { intros c' k0 v0 Hp Hin Hne. rewrite Hr2 in Hp. rewrite Hfo2 in Hin.
-        destruct (Hd1 c' k0 v0 Hp Hin Hne) as [[Hpd Ho]|Hdep]; [|right; exact Hdep].
+        destruct (proj1 Hd1 c' k0 v0 Hp Hin Hne) as [[Hpd Ho]|Hdep]; [|right; exact Hdep].
         left. rewrite Hr2. split; [exact Hpd|]. rewrite Hblock.
         assert (Hcn : c' <> n) by (intros ->; apply Hp; rewrite <- Hr2; exact HL1n).
         assert (Hdn : owner v0 <> n) by (intros Heq; apply Hpd; rewrite Heq, <- Hr2; exact HL1n).
         apply older_extend; [apply sub_none, block_other; exact Hdn|apply sub_none, block_other; exact Hcn|exact Ho]. }
-      assert (Hfin : forall pv, DF (set_reg st2 (end_create_ok (reg st2) n pv))).
-      { intros pv c' k0 v0 Hp Hin Hne. cbn [reg set_reg log] in *.
+      assert (Hn2 : ND st2) by (eapply ND_reg; [exact Hr2|exact (proj2 Hd1)]).
+      assert (Hcn2 : cached (reg st2) n = true) by (apply (i_creating_cached st2 HI2); rewrite Hr2, Hcr1; left; reflexivity).
+      assert (Hfin : forall pv, DN (set_reg st2 (end_create_ok (reg st2) n pv))).
+      { intros pv. split.
+        2:{ eapply (ND_step st2); [| |exact Hn2]; cbn [reg set_reg]; [apply mono_end_create_ok|].
+            intros m Hm. left. destruct (Nat.eq_dec m n) as [->|Hmn]; [exact Hcn2|].
+            unfold cached, end_create_ok, add_singleton in Hm. cbn [L1 L2 L3] in Hm.
+            rewrite (alookup_aset_neq n m pv _ Hmn), !(alookup_aremove_neq n m _ Hmn) in Hm. exact Hm. }
+        intros c' k0 v0 Hp Hin Hne. cbn [reg set_reg log] in *.
         change (field_of (set_reg st2 (end_create_ok (reg st2) n pv)) c' k0) with (field_of st2 c' k0) in Hin.
         unfold end_create_ok, add_singleton in *. cbn [L1] in *.
         destruct (Nat.eq_dec c' n) as [->|Hcn].
@@ -324,14 +381,14 @@ Theorem do_get_DF vt s :
   fix_c03 vt = true -> fix_c07 vt = true -> fix_c08 vt = true -> fix_c10 vt = true ->
   forall fuel st n st' v, B vt s st ->
     (full s st \/ (forall c, get_comp (s_pop s) n = Some c -> c_points c = [])) -> callok vt s st n ->
-    do_get vt s fuel st n = Ok (st', v) -> DF vt s st'.
+    do_get vt s fuel st n = Ok (st', v) -> DN vt s st'.
 Proof.
   intros H3 H7 H8 H10. induction fuel as [|f IH]; intros st n st' v Hb Hc Hco H; [discriminate|].
   cbn [do_get] in H.
   assert (HG' : forall st0 d st1 v1, G vt s st0 -> full s st0 -> do_get vt s f st0 d = Ok (st1, v1) -> G vt s st1)
     by (intros st0 d st1 v1 Hg0 Hf0 H0; eapply (do_get_G vt s H3 H7 H8 H10); [exact Hg0|left; exact Hf0|exact H0]).
   assert (Hdf' : forall st0 d st1 v1, G vt s st0 -> full s st0 -> life s st0 -> chain vt s (creating (reg st0)) ->
-                   callok vt s st0 d -> DF vt s st0 -> do_get vt s f st0 d = Ok (st1, v1) -> DF vt s st1).
+                   callok vt s st0 d -> DN vt s st0 -> do_get vt s f st0 d = Ok (st1, v1) -> DN vt s st1).
   { intros st0 d st1 v1 Hg0 Hf0 Hl0 Hch0 Hco0 Hd0 H0. eapply IH; [|left; exact Hf0|exact Hco0|exact H0].
     split; [exact Hg0|]. split; [exact Hl0|]. split; [exact Hch0|exact Hd0]. }
   exact (body_B vt s H8 H10 (do_get vt s f) (do_get_spec vt s H3 f) (do_get_life vt s f)
@@ -342,14 +399,14 @@ Qed.
 
 Lemma do_get_B_top vt s :
   fix_c03 vt = true -> fix_c07 vt = true -> fix_c08 vt = true -> fix_c10 vt = true ->
-  forall st n st' v, B vt s st -> creating (reg st) = [] ->
+  forall st n st' v, B vt s st -> creating (reg st) = [] -> is_lazy (s_pop s) n = false ->
     (full s st \/ (forall c, get_comp (s_pop s) n = Some c -> c_points c = [])) ->
     do_get vt s (fuel_of s) st n = Ok (st', v) -> B vt s st' /\ creating (reg st') = [].
 Proof.
-  intros H3 H7 H8 H10 st n st' v Hb Hcr Hc H. pose proof Hb as [Hg [Hl [Hch Hd]]].
+  intros H3 H7 H8 H10 st n st' v Hb Hcr Hroot Hc H. pose proof Hb as [Hg [Hl [Hch Hd]]].
   destruct (do_get_spec vt s H3 _ st n st' v (g_inv vt s st Hg) H) as [_ [Hc' _]].
   destruct (do_get_life vt s _ _ _ _ _ H) as [_ [_ Hl']].
-  assert (Hco : callok vt s st n) by (unfold callok; rewrite Hcr; exact I).
+  assert (Hco : callok vt s st n) by (unfold callok; rewrite Hcr; exact Hroot).
   split; [|congruence]. split; [eapply (do_get_G vt s H3 H7 H8 H10); eauto|]. split; [apply Hl'; exact Hl|].
   split; [rewrite Hc', Hcr; exact I|]. eapply (do_get_DF vt s H3 H7 H8 H10); eauto.
 Qed.
@@ -358,21 +415,21 @@ Lemma B_core vt s st st' : same_core st st' -> injs st' = injs st -> log st' = l
 Proof.
   intros Hc Hi Hlg [Hg [Hl [Hch Hd]]]. pose proof Hc as [Hr [Hf Hdp]].
   split; [eapply G_core; eauto|]. split; [eapply life_same_core; [exact Hlg|exact Hf|rewrite Hr; reflexivity|exact Hl]|].
-  split; [rewrite Hr; exact Hch|].
+  split; [rewrite Hr; exact Hch|]. split; [|eapply ND_reg; [exact Hr|exact (proj2 Hd)]].
   intros c k v Hp Hin Hne. rewrite Hr in Hp. assert (Hfo : field_of st' c k = field_of st c k) by (unfold field_of; rewrite Hf; reflexivity).
-  rewrite Hfo in Hin. rewrite Hr, Hlg. apply (Hd c k v Hp Hin Hne).
+  rewrite Hfo in Hin. rewrite Hr, Hlg. apply (proj1 Hd c k v Hp Hin Hne).
 Qed.
 
-Theorem run_core_DF vt s st :
+Theorem run_core_DN vt s st :
   fix_c03 vt = true -> fix_c07 vt = true -> fix_c08 vt = true -> fix_c10 vt = true ->
   procs_pointless_b s = true -> stages_ok_b s = true ->
-  run_core vt s = Ok st -> DF vt s st.
+  run_core vt s = Ok st -> DN vt s st.
 Proof.
   intros H3 H7 H8 H10 Hp Hs. apply procs_pointless_b_sound in Hp. apply stages_eqb_eq in Hs.
   unfold run_core. destruct (s_loader_fail s); [discriminate|]. unfold prepare.
   assert (Hb0 : B vt s (set_scanned finit) /\ creating (reg (set_scanned finit)) = []).
   { split; [|reflexivity]. split; [apply G_finit|]. split; [apply life_finit|]. split; [exact I|].
-    intros c k v Hpub. cbn in Hpub. contradiction. }
+    split; [intros c k v Hpub; cbn in Hpub; contradiction|intros m Hm; cbn in Hm; discriminate]. }
   (* PrepareComponents *)
   assert (Hprep : forall ps st0 st1,
             (forall p c, In p ps -> get_comp (s_pop s) p = Some c -> c_points c = []) ->
@@ -382,12 +439,12 @@ Proof.
     - inversion H; subst. rewrite app_nil_r. auto.
     - assert (Hr : forall q c, In q r -> get_comp (s_pop s) q = Some c -> c_points c = [])
         by (intros q c Hq; apply Hpl; right; exact Hq).
-      destruct (is_lazy (s_pop s) p).
+      destruct (is_lazy (s_pop s) p) eqn:Elz.
       + destruct (IH _ _ Hr (B_core vt s st0 (set_active st0 (active st0 ++ [p])) ltac:(repeat split) eq_refl eq_refl Hb) Hcr H)
           as [Hb' [Hcr' Ha']].
         split; [exact Hb'|]. split; [exact Hcr'|]. rewrite Ha'. cbn [active set_active]. rewrite <- app_assoc. reflexivity.
       + destruct (do_get vt s (fuel_of s) st0 p) as [[st2 v]|k st2] eqn:E; [|discriminate].
-        destruct (do_get_B_top vt s H3 H7 H8 H10 st0 p st2 v Hb Hcr
+        destruct (do_get_B_top vt s H3 H7 H8 H10 st0 p st2 v Hb Hcr Elz
                     ltac:(right; intros c Hc; eapply Hpl; [left; reflexivity|exact Hc]) E) as [Hb2 Hcr2].
         pose proof (do_get_active _ _ _ _ _ _ _ E) as Ha2.
         destruct (IH _ _ Hr (B_core vt s st2 (set_active st2 (active st2 ++ [p])) ltac:(repeat split) eq_refl eq_refl Hb2) Hcr2 H)
@@ -397,21 +454,50 @@ Proof.
   destruct Hb0 as [Hb0 Hcr0].
   destruct (Hprep _ _ _ Hp Hb0 Hcr0 E1) as [Hb1 [Hcr1 Ha1]]. cbn [active set_scanned finit app] in Ha1.
   (* Refresh *)
-  assert (Href : forall ns st0 st2, B vt s st0 -> creating (reg st0) = [] -> full s st0 ->
+  assert (Href : forall ns st0 st2, (forall n, In n ns -> is_lazy (s_pop s) n = false) ->
+            B vt s st0 -> creating (reg st0) = [] -> full s st0 ->
             get_each vt s ns st0 = Ok st2 -> B vt s st2).
-  { induction ns as [|n r IH]; intros st0 st2 Hb Hcr Hfu H; cbn [get_each] in H; [inversion H; subst; exact Hb|].
+  { induction ns as [|n r IH]; intros st0 st2 Hrt Hb Hcr Hfu H; cbn [get_each] in H; [inversion H; subst; exact Hb|].
     destruct (do_get vt s (fuel_of s) st0 n) as [[st3 v]|k st3] eqn:E; [|discriminate].
-    destruct (do_get_B_top vt s H3 H7 H8 H10 st0 n st3 v Hb Hcr (or_introl Hfu) E) as [Hb3 Hcr3].
-    eapply IH; [exact Hb3|exact Hcr3| |exact H]. unfold full. rewrite (do_get_active _ _ _ _ _ _ _ E). exact Hfu. }
+    destruct (do_get_B_top vt s H3 H7 H8 H10 st0 n st3 v Hb Hcr (Hrt n (or_introl eq_refl)) (or_introl Hfu) E) as [Hb3 Hcr3].
+    eapply IH; [intros m Hm; apply Hrt; right; exact Hm|exact Hb3|exact Hcr3| |exact H].
+    unfold full. rewrite (do_get_active _ _ _ _ _ _ _ E). exact Hfu. }
+  assert (Heag : forall n, In n (eager_names s) -> is_lazy (s_pop s) n = false).
+  { intros n Hn. unfold eager_names in Hn. apply filter_In in Hn. destruct Hn as [_ Hn]. apply negb_true_iff in Hn. exact Hn. }
   unfold refresh. destruct (get_each vt s (eager_names s) st1) as [st2|k st2] eqn:E2; [|discriminate].
-  pose proof (Href _ _ _ Hb1 Hcr1 ltac:(unfold full; rewrite Ha1; exact Hs) E2) as Hb2.
+  pose proof (Href _ _ _ Heag Hb1 Hcr1 ltac:(unfold full; rewrite Ha1; exact Hs) E2) as Hb2.
   (* runners: only EvRun events, which are about no component *)
-  assert (Hrun : forall ns st0 st3, DF vt s st0 -> run_each s ns st0 = Ok st3 -> DF vt s st3).
+  assert (Hrun : forall ns st0 st3, DN vt s st0 -> run_each s ns st0 = Ok st3 -> DN vt s st3).
   { induction ns as [|n r IH]; intros st0 st3 Hd H; cbn [run_each] in H; [inversion H; subst; exact Hd|].
     destruct (runner_fails s n); [discriminate|]. eapply IH; [|exact H].
-    eapply (DF_log_early vt s st0 (add_log st0 (EvRun n))); [reflexivity|reflexivity| |exact Hd].
+    split; [|eapply ND_reg; [|exact (proj2 Hd)]; reflexivity].
+    eapply (DF_log_early vt s st0 (add_log st0 (EvRun n))); [reflexivity|reflexivity| |exact (proj1 Hd)].
     exists [EvRun n]. split; [reflexivity|]. constructor; [intros m; reflexivity|constructor]. }
   destruct Hb2 as [_ [_ [_ Hd2]]].
   unfold call_runners. destruct (s_app s) as [[[a rp] cp]|]; [|intros H; inversion H; subst; exact Hd2].
   intros H. eapply Hrun; eauto.
+Qed.
+
+Theorem run_core_DF vt s st :
+  fix_c03 vt = true -> fix_c07 vt = true -> fix_c08 vt = true -> fix_c10 vt = true ->
+  procs_pointless_b s = true -> stages_ok_b s = true ->
+  run_core vt s = Ok st -> DF vt s st.
+Proof. intros H3 H7 H8 H10 Hp Hs H. exact (proj1 (run_core_DN vt s st H3 H7 H8 H10 Hp Hs H)). Qed.
+
+(* created only if needed, for a whole start: every created component is a root or reachable from a
+   PUBLISHED root through requests *)
+Theorem run_core_needed vt s st :
+  fix_c03 vt = true -> fix_c07 vt = true -> fix_c08 vt = true -> fix_c10 vt = true ->
+  procs_pointless_b s = true -> stages_ok_b s = true ->
+  run_core vt s = Ok st ->
+  forall n, cached (reg st) n = true ->
+    is_lazy (s_pop s) n = false
+    \/ exists a, is_lazy (s_pop s) a = false /\ alookup a (L1 (reg st)) <> None /\ dep vt s a n.
+Proof.
+  intros H3 H7 H8 H10 Hp Hs H n Hc.
+  destruct (proj2 (run_core_DN vt s st H3 H7 H8 H10 Hp Hs H) n Hc) as [Hr|[a [Ha [Hca Hd]]]]; [left; exact Hr|].
+  right. exists a. split; [exact Ha|]. split; [|exact Hd].
+  destruct (run_core_top vt s st H3 H) as [HI Hcr]. unfold cached in Hca.
+  destruct (alookup a (L1 (reg st))); [discriminate|]. cbn [isSome orb] in Hca.
+  pose proof (i_early_creating st HI a Hca) as Hin. rewrite Hcr in Hin. contradiction.
 Qed.
